@@ -91,6 +91,62 @@ func urlMode(args []string) {
 			}
 		}
 	}
+	// directed: every ordered pair and triple of builder calls from a pool that overlaps on the same element,
+	// the same pattern (one regexp pointer) and the same attribute / property / scheme
+	{
+		pool := []Op{
+			{Kind: "attrs", Names: []string{"id"}, Scope: "E", ScopeEls: []string{"a"}},
+			{Kind: "attrs", Names: []string{"id"}, Re: `^[a-z]+$`, Scope: "E", ScopeEls: []string{"A"}},
+			{Kind: "attrs", NoAttrs: true, Scope: "E", ScopeEls: []string{"a"}},
+			{Kind: "attrs", Names: []string{"id"}, Scope: "M", ScopeRe: `^custom-`},
+			{Kind: "attrs", Names: []string{"class"}, NoAttrs: true, Scope: "M", ScopeRe: `^custom-`},
+			{Kind: "attrs", NoAttrs: true, Scope: "M", ScopeRe: `^custom-`},
+			{Kind: "attrs", Names: []string{"ID"}, Re: `^x`, Scope: "G"},
+			{Kind: "styles", Names: []string{"color"}, Scope: "M", ScopeRe: `^custom-`},
+			{Kind: "styles", Names: []string{"COLOR", "width"}, Enum: []string{"red"}, Scope: "M", ScopeRe: `^custom-`},
+			{Kind: "styles", Names: []string{"color"}, Scope: "E", ScopeEls: []string{"a"}},
+			{Kind: "elements", Names: []string{"a", "script"}},
+			{Kind: "elementsmatching", Re: `^custom-`},
+			{Kind: "skip", Names: []string{"A", "b"}},
+			{Kind: "keep", Names: []string{"a", "script"}},
+			{Kind: "schemes", Names: []string{"HTTP"}},
+			{Kind: "schemecustom", Scheme: "http", CB: "never"},
+		}
+		run := func(seq []int) bool {
+			gp := bluemonday.NewPolicy()
+			spec := &PolicySpec{}
+			polCounter++
+			pid := fmt.Sprintf("dq%d", polCounter)
+			d.send("POLICY " + pid)
+			for _, oi := range seq {
+				op := pool[oi]
+				op.applyGo(gp)
+				spec.Ops = append(spec.Ops, op)
+				d.send("OP " + pid + " " + op.wire(d))
+			}
+			g, m := dumpGo(gp), dumpModel(d, pid)
+			sum.Evaluations++
+			distinct[g] = true
+			if g != m {
+				sum.Mismatches = append(sum.Mismatches, map[string]any{"kind": "correspondence-dump", "history": spec, "go": g, "model": m, "diff": firstDiffLine(g, m)})
+				return len(sum.Mismatches) < 5
+			}
+			return true
+		}
+		for i := range pool {
+			for j := range pool {
+				if !run([]int{i, j}) {
+					goto done
+				}
+				for k := range pool {
+					if (i+j+k)%3 == 0 && !run([]int{i, j, k}) {
+						goto done
+					}
+				}
+			}
+		}
+		sum.Distribution["directed-pairs-and-triples"] = len(pool)*len(pool) + len(pool)*len(pool)*len(pool)/3
+	}
 done:
 	sum.Nontrivial = len(distinct)
 	sum.Samples = append(sum.Samples, map[string]any{"policy": "u-std", "input": corpus[len(corpus)/2]})
@@ -172,6 +228,62 @@ func styleMode(args []string) {
 				}
 			}
 		}
+	}
+	// directed: every ordered pair and triple of builder calls from a pool that overlaps on the same element,
+	// the same pattern (one regexp pointer) and the same attribute / property / scheme
+	{
+		pool := []Op{
+			{Kind: "attrs", Names: []string{"id"}, Scope: "E", ScopeEls: []string{"a"}},
+			{Kind: "attrs", Names: []string{"id"}, Re: `^[a-z]+$`, Scope: "E", ScopeEls: []string{"A"}},
+			{Kind: "attrs", NoAttrs: true, Scope: "E", ScopeEls: []string{"a"}},
+			{Kind: "attrs", Names: []string{"id"}, Scope: "M", ScopeRe: `^custom-`},
+			{Kind: "attrs", Names: []string{"class"}, NoAttrs: true, Scope: "M", ScopeRe: `^custom-`},
+			{Kind: "attrs", NoAttrs: true, Scope: "M", ScopeRe: `^custom-`},
+			{Kind: "attrs", Names: []string{"ID"}, Re: `^x`, Scope: "G"},
+			{Kind: "styles", Names: []string{"color"}, Scope: "M", ScopeRe: `^custom-`},
+			{Kind: "styles", Names: []string{"COLOR", "width"}, Enum: []string{"red"}, Scope: "M", ScopeRe: `^custom-`},
+			{Kind: "styles", Names: []string{"color"}, Scope: "E", ScopeEls: []string{"a"}},
+			{Kind: "elements", Names: []string{"a", "script"}},
+			{Kind: "elementsmatching", Re: `^custom-`},
+			{Kind: "skip", Names: []string{"A", "b"}},
+			{Kind: "keep", Names: []string{"a", "script"}},
+			{Kind: "schemes", Names: []string{"HTTP"}},
+			{Kind: "schemecustom", Scheme: "http", CB: "never"},
+		}
+		run := func(seq []int) bool {
+			gp := bluemonday.NewPolicy()
+			spec := &PolicySpec{}
+			polCounter++
+			pid := fmt.Sprintf("dq%d", polCounter)
+			d.send("POLICY " + pid)
+			for _, oi := range seq {
+				op := pool[oi]
+				op.applyGo(gp)
+				spec.Ops = append(spec.Ops, op)
+				d.send("OP " + pid + " " + op.wire(d))
+			}
+			g, m := dumpGo(gp), dumpModel(d, pid)
+			sum.Evaluations++
+			distinct[g] = true
+			if g != m {
+				sum.Mismatches = append(sum.Mismatches, map[string]any{"kind": "correspondence-dump", "history": spec, "go": g, "model": m, "diff": firstDiffLine(g, m)})
+				return len(sum.Mismatches) < 5
+			}
+			return true
+		}
+		for i := range pool {
+			for j := range pool {
+				if !run([]int{i, j}) {
+					goto done
+				}
+				for k := range pool {
+					if (i+j+k)%3 == 0 && !run([]int{i, j, k}) {
+						goto done
+					}
+				}
+			}
+		}
+		sum.Distribution["directed-pairs-and-triples"] = len(pool)*len(pool) + len(pool)*len(pool)*len(pool)/3
 	}
 done:
 	sum.Nontrivial = len(distinct)
@@ -265,6 +377,62 @@ func fnMode(args []string) {
 		if want != got {
 			sum.Mismatches = append(sum.Mismatches, map[string]any{"kind": "correspondence-fn", "function": "equal_fold", "a": a, "b": b, "go": want, "model": got})
 		}
+	}
+	// directed: every ordered pair and triple of builder calls from a pool that overlaps on the same element,
+	// the same pattern (one regexp pointer) and the same attribute / property / scheme
+	{
+		pool := []Op{
+			{Kind: "attrs", Names: []string{"id"}, Scope: "E", ScopeEls: []string{"a"}},
+			{Kind: "attrs", Names: []string{"id"}, Re: `^[a-z]+$`, Scope: "E", ScopeEls: []string{"A"}},
+			{Kind: "attrs", NoAttrs: true, Scope: "E", ScopeEls: []string{"a"}},
+			{Kind: "attrs", Names: []string{"id"}, Scope: "M", ScopeRe: `^custom-`},
+			{Kind: "attrs", Names: []string{"class"}, NoAttrs: true, Scope: "M", ScopeRe: `^custom-`},
+			{Kind: "attrs", NoAttrs: true, Scope: "M", ScopeRe: `^custom-`},
+			{Kind: "attrs", Names: []string{"ID"}, Re: `^x`, Scope: "G"},
+			{Kind: "styles", Names: []string{"color"}, Scope: "M", ScopeRe: `^custom-`},
+			{Kind: "styles", Names: []string{"COLOR", "width"}, Enum: []string{"red"}, Scope: "M", ScopeRe: `^custom-`},
+			{Kind: "styles", Names: []string{"color"}, Scope: "E", ScopeEls: []string{"a"}},
+			{Kind: "elements", Names: []string{"a", "script"}},
+			{Kind: "elementsmatching", Re: `^custom-`},
+			{Kind: "skip", Names: []string{"A", "b"}},
+			{Kind: "keep", Names: []string{"a", "script"}},
+			{Kind: "schemes", Names: []string{"HTTP"}},
+			{Kind: "schemecustom", Scheme: "http", CB: "never"},
+		}
+		run := func(seq []int) bool {
+			gp := bluemonday.NewPolicy()
+			spec := &PolicySpec{}
+			polCounter++
+			pid := fmt.Sprintf("dq%d", polCounter)
+			d.send("POLICY " + pid)
+			for _, oi := range seq {
+				op := pool[oi]
+				op.applyGo(gp)
+				spec.Ops = append(spec.Ops, op)
+				d.send("OP " + pid + " " + op.wire(d))
+			}
+			g, m := dumpGo(gp), dumpModel(d, pid)
+			sum.Evaluations++
+			distinct[g] = true
+			if g != m {
+				sum.Mismatches = append(sum.Mismatches, map[string]any{"kind": "correspondence-dump", "history": spec, "go": g, "model": m, "diff": firstDiffLine(g, m)})
+				return len(sum.Mismatches) < 5
+			}
+			return true
+		}
+		for i := range pool {
+			for j := range pool {
+				if !run([]int{i, j}) {
+					goto done
+				}
+				for k := range pool {
+					if (i+j+k)%3 == 0 && !run([]int{i, j, k}) {
+						goto done
+					}
+				}
+			}
+		}
+		sum.Distribution["directed-pairs-and-triples"] = len(pool)*len(pool) + len(pool)*len(pool)*len(pool)/3
 	}
 done:
 	sum.Nontrivial = len(distinct)
@@ -376,6 +544,62 @@ func dumpMode(args []string) {
 		if len(sum.Samples) < 2 {
 			sum.Samples = append(sum.Samples, map[string]any{"history": specs[0]})
 		}
+	}
+	// directed: every ordered pair and triple of builder calls from a pool that overlaps on the same element,
+	// the same pattern (one regexp pointer) and the same attribute / property / scheme
+	{
+		pool := []Op{
+			{Kind: "attrs", Names: []string{"id"}, Scope: "E", ScopeEls: []string{"a"}},
+			{Kind: "attrs", Names: []string{"id"}, Re: `^[a-z]+$`, Scope: "E", ScopeEls: []string{"A"}},
+			{Kind: "attrs", NoAttrs: true, Scope: "E", ScopeEls: []string{"a"}},
+			{Kind: "attrs", Names: []string{"id"}, Scope: "M", ScopeRe: `^custom-`},
+			{Kind: "attrs", Names: []string{"class"}, NoAttrs: true, Scope: "M", ScopeRe: `^custom-`},
+			{Kind: "attrs", NoAttrs: true, Scope: "M", ScopeRe: `^custom-`},
+			{Kind: "attrs", Names: []string{"ID"}, Re: `^x`, Scope: "G"},
+			{Kind: "styles", Names: []string{"color"}, Scope: "M", ScopeRe: `^custom-`},
+			{Kind: "styles", Names: []string{"COLOR", "width"}, Enum: []string{"red"}, Scope: "M", ScopeRe: `^custom-`},
+			{Kind: "styles", Names: []string{"color"}, Scope: "E", ScopeEls: []string{"a"}},
+			{Kind: "elements", Names: []string{"a", "script"}},
+			{Kind: "elementsmatching", Re: `^custom-`},
+			{Kind: "skip", Names: []string{"A", "b"}},
+			{Kind: "keep", Names: []string{"a", "script"}},
+			{Kind: "schemes", Names: []string{"HTTP"}},
+			{Kind: "schemecustom", Scheme: "http", CB: "never"},
+		}
+		run := func(seq []int) bool {
+			gp := bluemonday.NewPolicy()
+			spec := &PolicySpec{}
+			polCounter++
+			pid := fmt.Sprintf("dq%d", polCounter)
+			d.send("POLICY " + pid)
+			for _, oi := range seq {
+				op := pool[oi]
+				op.applyGo(gp)
+				spec.Ops = append(spec.Ops, op)
+				d.send("OP " + pid + " " + op.wire(d))
+			}
+			g, m := dumpGo(gp), dumpModel(d, pid)
+			sum.Evaluations++
+			distinct[g] = true
+			if g != m {
+				sum.Mismatches = append(sum.Mismatches, map[string]any{"kind": "correspondence-dump", "history": spec, "go": g, "model": m, "diff": firstDiffLine(g, m)})
+				return len(sum.Mismatches) < 5
+			}
+			return true
+		}
+		for i := range pool {
+			for j := range pool {
+				if !run([]int{i, j}) {
+					goto done
+				}
+				for k := range pool {
+					if (i+j+k)%3 == 0 && !run([]int{i, j, k}) {
+						goto done
+					}
+				}
+			}
+		}
+		sum.Distribution["directed-pairs-and-triples"] = len(pool)*len(pool) + len(pool)*len(pool)*len(pool)/3
 	}
 done:
 	sum.Nontrivial = len(distinct)
@@ -577,6 +801,62 @@ func entryMode(args []string) {
 			}
 		}
 	}
+	// directed: every ordered pair and triple of builder calls from a pool that overlaps on the same element,
+	// the same pattern (one regexp pointer) and the same attribute / property / scheme
+	{
+		pool := []Op{
+			{Kind: "attrs", Names: []string{"id"}, Scope: "E", ScopeEls: []string{"a"}},
+			{Kind: "attrs", Names: []string{"id"}, Re: `^[a-z]+$`, Scope: "E", ScopeEls: []string{"A"}},
+			{Kind: "attrs", NoAttrs: true, Scope: "E", ScopeEls: []string{"a"}},
+			{Kind: "attrs", Names: []string{"id"}, Scope: "M", ScopeRe: `^custom-`},
+			{Kind: "attrs", Names: []string{"class"}, NoAttrs: true, Scope: "M", ScopeRe: `^custom-`},
+			{Kind: "attrs", NoAttrs: true, Scope: "M", ScopeRe: `^custom-`},
+			{Kind: "attrs", Names: []string{"ID"}, Re: `^x`, Scope: "G"},
+			{Kind: "styles", Names: []string{"color"}, Scope: "M", ScopeRe: `^custom-`},
+			{Kind: "styles", Names: []string{"COLOR", "width"}, Enum: []string{"red"}, Scope: "M", ScopeRe: `^custom-`},
+			{Kind: "styles", Names: []string{"color"}, Scope: "E", ScopeEls: []string{"a"}},
+			{Kind: "elements", Names: []string{"a", "script"}},
+			{Kind: "elementsmatching", Re: `^custom-`},
+			{Kind: "skip", Names: []string{"A", "b"}},
+			{Kind: "keep", Names: []string{"a", "script"}},
+			{Kind: "schemes", Names: []string{"HTTP"}},
+			{Kind: "schemecustom", Scheme: "http", CB: "never"},
+		}
+		run := func(seq []int) bool {
+			gp := bluemonday.NewPolicy()
+			spec := &PolicySpec{}
+			polCounter++
+			pid := fmt.Sprintf("dq%d", polCounter)
+			d.send("POLICY " + pid)
+			for _, oi := range seq {
+				op := pool[oi]
+				op.applyGo(gp)
+				spec.Ops = append(spec.Ops, op)
+				d.send("OP " + pid + " " + op.wire(d))
+			}
+			g, m := dumpGo(gp), dumpModel(d, pid)
+			sum.Evaluations++
+			distinct[g] = true
+			if g != m {
+				sum.Mismatches = append(sum.Mismatches, map[string]any{"kind": "correspondence-dump", "history": spec, "go": g, "model": m, "diff": firstDiffLine(g, m)})
+				return len(sum.Mismatches) < 5
+			}
+			return true
+		}
+		for i := range pool {
+			for j := range pool {
+				if !run([]int{i, j}) {
+					goto done
+				}
+				for k := range pool {
+					if (i+j+k)%3 == 0 && !run([]int{i, j, k}) {
+						goto done
+					}
+				}
+			}
+		}
+		sum.Distribution["directed-pairs-and-triples"] = len(pool)*len(pool) + len(pool)*len(pool)*len(pool)/3
+	}
 done:
 	sum.Nontrivial = len(distinct)
 	sum.Samples = append(sum.Samples, map[string]any{"input": "<b>x</b>", "chunkings": "nil, one byte at a time, every single split point (<=48 bytes), 6 random with zero-length reads, data+EOF"})
@@ -717,6 +997,62 @@ func rwMode(args []string) {
 				}
 			}
 		}
+	}
+	// directed: every ordered pair and triple of builder calls from a pool that overlaps on the same element,
+	// the same pattern (one regexp pointer) and the same attribute / property / scheme
+	{
+		pool := []Op{
+			{Kind: "attrs", Names: []string{"id"}, Scope: "E", ScopeEls: []string{"a"}},
+			{Kind: "attrs", Names: []string{"id"}, Re: `^[a-z]+$`, Scope: "E", ScopeEls: []string{"A"}},
+			{Kind: "attrs", NoAttrs: true, Scope: "E", ScopeEls: []string{"a"}},
+			{Kind: "attrs", Names: []string{"id"}, Scope: "M", ScopeRe: `^custom-`},
+			{Kind: "attrs", Names: []string{"class"}, NoAttrs: true, Scope: "M", ScopeRe: `^custom-`},
+			{Kind: "attrs", NoAttrs: true, Scope: "M", ScopeRe: `^custom-`},
+			{Kind: "attrs", Names: []string{"ID"}, Re: `^x`, Scope: "G"},
+			{Kind: "styles", Names: []string{"color"}, Scope: "M", ScopeRe: `^custom-`},
+			{Kind: "styles", Names: []string{"COLOR", "width"}, Enum: []string{"red"}, Scope: "M", ScopeRe: `^custom-`},
+			{Kind: "styles", Names: []string{"color"}, Scope: "E", ScopeEls: []string{"a"}},
+			{Kind: "elements", Names: []string{"a", "script"}},
+			{Kind: "elementsmatching", Re: `^custom-`},
+			{Kind: "skip", Names: []string{"A", "b"}},
+			{Kind: "keep", Names: []string{"a", "script"}},
+			{Kind: "schemes", Names: []string{"HTTP"}},
+			{Kind: "schemecustom", Scheme: "http", CB: "never"},
+		}
+		run := func(seq []int) bool {
+			gp := bluemonday.NewPolicy()
+			spec := &PolicySpec{}
+			polCounter++
+			pid := fmt.Sprintf("dq%d", polCounter)
+			d.send("POLICY " + pid)
+			for _, oi := range seq {
+				op := pool[oi]
+				op.applyGo(gp)
+				spec.Ops = append(spec.Ops, op)
+				d.send("OP " + pid + " " + op.wire(d))
+			}
+			g, m := dumpGo(gp), dumpModel(d, pid)
+			sum.Evaluations++
+			distinct[g] = true
+			if g != m {
+				sum.Mismatches = append(sum.Mismatches, map[string]any{"kind": "correspondence-dump", "history": spec, "go": g, "model": m, "diff": firstDiffLine(g, m)})
+				return len(sum.Mismatches) < 5
+			}
+			return true
+		}
+		for i := range pool {
+			for j := range pool {
+				if !run([]int{i, j}) {
+					goto done
+				}
+				for k := range pool {
+					if (i+j+k)%3 == 0 && !run([]int{i, j, k}) {
+						goto done
+					}
+				}
+			}
+		}
+		sum.Distribution["directed-pairs-and-triples"] = len(pool)*len(pool) + len(pool)*len(pool)*len(pool)/3
 	}
 done:
 	sum.Nontrivial = len(distinct)
